@@ -9,6 +9,19 @@ NOTE = ("Trusted: Coq 8.16.1 kernel + vm_compute; tools/gen_consts.py; the Rust 
 TECH = "machine-checked proof in Coq (Rocq) over a Gallina model + differential correspondence check against the Rust code"
 
 CLAIMED = {
+    "C04": {
+        "text": "Proved (props/C04.v): the timer fires entries in (deadline, id) order and removal takes exactly the fired/cancelled "
+                "entry; a search on a node with no good node closes in the step that starts it, having sent nothing; events other "
+                "than queries/responses are quiet; the silent case closes exactly 3 s after its query in the model (computed "
+                "example). Decided per run, not proved for all runs (partial): the quantitative bounds - every stream closes; exactly "
+                "3 s after the first query under silence; within 1.5 s x (1 + distinct nodes) + 1.5 s in general; never while a query "
+                "is younger than 1.5 s and unanswered; an answer within 1.5 s is accepted - are measured on the virtual clock of "
+                "simulated runs of the real node with silent / error / garbage responders, loss, duplication, send-failure windows "
+                "and ever-closer worlds, and every such run is also replayed through the Coq lookup model (exact agreement), which "
+                "uses the 1.5 s constants read from the source.",
+        "ref": "7/C04", "axioms": "none",
+        "note_extra": "PARTIAL: the termination/no-early-close bounds are checker-decided on explored runs; the missing theorem is the invariant 'a live search always has a pending timer that will wake it' plus the distance-to-beat descent argument.",
+    },
     "C03": {
         "text": "Safety theorems (props/C03.v) over the Gallina lookup/handler model, for ARBITRARY states and events (any datagram from "
                 "any source in any order, duplicates, forged ids, timers): c03_yield_only_from_outstanding - every address a search "
